@@ -1979,6 +1979,10 @@ class _Parser(object):
             self.set_mode("after body")
             return REPROCESS
         if name in self.BODY_BLOCK_END:
+            if name == "pre":
+                # html5lib's InBodyPhase.endTagBlock switches its drop-newline flag off
+                # (compat "pre-lf"; the flag is never set without that switch)
+                self.h5l_drop_lf = False
             if not self.in_scope(name):
                 self.err()
                 self.trace.add("scope-barrier")
